@@ -46,6 +46,7 @@ def run(ck):
     from .c18 import ck_alias as _alias
     _c02.r4(_alias(ck, "C05-R3e"))
     c04.r4_direction(ck, rule="C05-R3d")
+    c04.r8_who_writes_the_file_state(ck, rule="C05-R3f")
     r6_every_file_saved(ck)
     r7_refused_rename_puts_content_back(ck)
     r4(ck, par)
@@ -80,11 +81,16 @@ def r6_every_file_saved(ck, rule="C05-R6"):
 
 
 # ---- R1 -----------------------------------------------------------------------------------------
-def _load_key(e):
+def _load_key(e, fn=None):
     """The name expression a record was fetched under: the second argument of the get_or_load call inside e (clone / borrow wrappers
     peeled)."""
     hits = [x for x in df.walk(e) if df.is_call(x, "ModifiedFiles::<'arena, 'config>::get_or_load")]
-    if len(hits) != 1:
+    if not hits and fn is not None and isinstance(e, tuple) and e and e[0] in ("local", "var", "named") and isinstance(e[1], int):
+        # a variable the expression builder does not look through (it is written through later on): its defining call
+        ds = [d for d in df.all_def_exprs(fn, e[1]) if df.mentions(d, lambda x: df.is_call(x, "ModifiedFiles::<'arena, 'config>::get_or_load"))]
+        if len(ds) == 1:
+            return _load_key(ds[0], fn)
+    if len({repr(h) for h in hits}) != 1:
         return None
     k = hits[0][2][1] if len(hits[0]) > 2 and len(hits[0][2]) > 1 else None
     while isinstance(k, tuple) and k and ((k[0] in ("ref", "deref", "un") and isinstance(k[-1], tuple)) or
@@ -109,7 +115,7 @@ def r7_refused_rename_puts_content_back(ck, rule="C05-R7"):
         ck.require(not outs, rule, "one move_out", "%d move_out calls: which content travels is not decided" % len(outs), fn.where())
         return
     obb, ot = outs[0]
-    key_out = _load_key(df.operand_expr(fn, ot["args"][0]))
+    key_out = _load_key(df.operand_expr(fn, ot["args"][0]), fn)
     if not ck.require(key_out is not None, rule, "the record emptied is fetched by name", "the receiver of move_out is not a get_or_load result", fn.where(ot)):
         return
     tested = []
@@ -126,7 +132,7 @@ def r7_refused_rename_puts_content_back(ck, rule="C05-R7"):
         back = [(b2, t2) for b2, t2 in ins if b2 in region]
         good = set()
         for b2, t2 in back:
-            k = _load_key(df.operand_expr(fn, t2["args"][0]))
+            k = _load_key(df.operand_expr(fn, t2["args"][0]), fn)
             if ck.require(k is not None and k == key_out, rule, "content goes back to the record it was taken from",
                           "after the refused rename the content taken from %s is moved into the record of %s: the file to patch is left empty (saved as deleted) "
                           "and another file is overwritten by a patch that reports it did nothing" % (df.show(key_out, 60), df.show(k, 60)), fn.where(t2),
